@@ -8,12 +8,13 @@ CHECK = dict(
     assumptions=[
         "miekg/dns codec, gcache expiry and agdcache LRU are trusted",
         "time is owned by rewinding the stored items' timestamps and by a harness-clocked store behind the middleware's cache field; the wall clock only adds microseconds, which the one-sided TTL bound tolerates",
+        "cmd unit: dnssvc.NewHandlers is called as builder.initDNS calls it, with a two-location model GeoIP and pass-through stand-ins for every other collaborator; 'n items fit, n+1 do not' is read off upstream call counts (no eviction order assumed)",
     ],
     units=[
         dict(name="cache", dir=D + "cache", src="C04/cache", runs=[
             dict(name="agegrid", run="^TestVerifC04AgeGrid$", quick=0, thorough=0),
             dict(name="agerapid", run="^TestVerifC04AgeRapid$", quick=20000, thorough=400000, shards_thorough=4),
-            dict(name="history", run="^TestVerifC04History$", quick=3000, thorough=480000, shards_thorough=12),
+            dict(name="history", run="^TestVerifC04History$", quick=3000, thorough=240000, shards_thorough=12),
             dict(name="realtime", run="^TestVerifC04RealTime$", quick=4, thorough=240, shards_thorough=12),
             dict(name="concurrent", run="^TestVerifC04Concurrent$", quick=300, thorough=20000, shards_thorough=4),
             dict(name="concurrent-race", run="^TestVerifC04Concurrent$", quick=60, thorough=2000, shards_thorough=2, race=True),
@@ -21,11 +22,14 @@ CHECK = dict(
         dict(name="ecscache", dir="internal/ecscache", src="C04/ecscache", runs=[
             dict(name="agegrid", run="^TestVerifC04EcsAgeGrid$", quick=0, thorough=0),
             dict(name="agerapid", run="^TestVerifC04EcsAgeRapid$", quick=20000, thorough=400000, shards_thorough=4),
-            dict(name="history", run="^TestVerifC04EcsHistory$", quick=3000, thorough=480000, shards_thorough=12),
+            dict(name="history", run="^TestVerifC04EcsHistory$", quick=3000, thorough=240000, shards_thorough=12),
             dict(name="realtime", run="^TestVerifC04EcsRealTime$", quick=4, thorough=240, shards_thorough=12),
         ]),
         dict(name="wired", dir="internal/dnssvc", src=["C05/dnssvc", "C04/wired"], runs=[
             dict(name="behind-ratelimitmw", run="^TestVerifC04Wired$", quick=1500, thorough=120000, shards_thorough=6),
+        ]),
+        dict(name="cmd", dir="internal/cmd", src="C04/cmd", runs=[
+            dict(name="cache-config", run="^TestVerifC04CmdCache$", quick=1200, thorough=60000, shards_quick=2, shards_thorough=6),
         ]),
     ],
 )
